@@ -159,6 +159,7 @@ pub struct World {
     pub next_clone_id: Cell<Oid>,
     pub panic_armed: Cell<bool>,
     pub panic_fired: Cell<bool>,
+    pub layout_lo: Cell<u64>,
     pub collected_once: Cell<bool>,
     pub destroyed_this_op: RefCell<Vec<Oid>>,
     pub dact_depth: Cell<u32>,
@@ -191,6 +192,7 @@ pub fn install_world(cfg: Cfg) {
             next_clone_id: Cell::new(0),
             panic_armed: Cell::new(true),
             panic_fired: Cell::new(false),
+            layout_lo: Cell::new(0),
             collected_once: Cell::new(false),
             destroyed_this_op: RefCell::new(vec![]),
             dact_depth: Cell::new(0),
